@@ -1,3 +1,5 @@
+//go:build go1.23
+
 package group
 
 // C12, the membership check itself: IsValidMembership and IsInGroup of a
